@@ -26,7 +26,7 @@
 (***************************************************************************)
 EXTENDS Integers, Sequences, FiniteSets, TLC, Json, ZooModel
 
-CONSTANT Cases     \* set of records [sys, metric, curved, st]
+CONSTANT Cases     \* set of records [sys, metric, curved, st] (+ marr when metric = "given")
 
 VARIABLE c
 Init == c \in Cases
@@ -40,8 +40,11 @@ IsGauss == c.sys \in {"Gaussian", "GaussianConstrained"}
 HasGramTerm == c.sys \in {"Constrained", "GaussianConstrained"}
 IsConstr == c.sys \in {"Constrained", "ConstrainedHausdorff", "GaussianConstrained"}
 
-Mq == IF IsRiem THEN MetricFn(c.metric, Qs) ELSE ConstMetric(c.metric)
-G == Gram(c.curved, ConstMetric(c.metric), Qs)
+\* the constant metric: one of the zoo's three, or an exact matrix handed over by the harness ("given": the value of a
+\* structured matrix object -- triangular-factored, low-rank update, block diagonal, rescaled after use, ...)
+CM == IF c.metric = "given" THEN c.marr ELSE ConstMetric(c.metric)
+Mq == IF IsRiem THEN MetricFn(c.metric, Qs) ELSE CM
+G == Gram(c.curved, CM, Qs)
 
 \* the documented Hamiltonian: rational part, and the determinant whose half logarithm is added to h1
 H1Poly == F(Qs)
@@ -50,7 +53,7 @@ H2 == QAdd(Kinetic(Mq, Ps), IF IsGauss THEN QMul(Half, Dot(Qs, Qs)) ELSE R(0))
 
 DH1 == VAdd(GradF(Qs),
             IF IsRiem THEN HalfLogDetGrad(LAMBDA x : MetricFn(c.metric, x), Qs)
-            ELSE IF HasGramTerm THEN HalfLogDetGrad(LAMBDA x : Gram(c.curved, ConstMetric(c.metric), x), Qs)
+            ELSE IF HasGramTerm THEN HalfLogDetGrad(LAMBDA x : Gram(c.curved, CM, x), Qs)
             ELSE Zero)
 DH2Pos == IF IsRiem THEN KineticPosGrad(LAMBDA x : MetricFn(c.metric, x), Qs, Ps)
           ELSE IF IsGauss THEN Qs ELSE Zero
@@ -68,5 +71,5 @@ Export ==
                  dh1_dpos |-> DH1, dh2_dpos |-> DH2Pos, dh2_dmom |-> DH2Mom,
                  dh_dpos |-> VAdd(DH1, DH2Pos), dh_dmom |-> DH2Mom,
                  jac |-> IF IsConstr THEN Jac(c.curved, Qs) ELSE << >>,
-                 gradf |-> GradF(Qs)]))
+                 gradf |-> GradF(Qs), given |-> IF c.metric = "given" THEN c.given ELSE ""]))
 =============================================================================
